@@ -23,6 +23,11 @@ C03  Conservative output reproduces unmodified source verbatim.
  R6  monotone invalidation: a node-level ``source.invalidate()`` is never
      guarded by the source still being valid (INVALID_CHILDREN must still be
      upgraded to INVALID_NODE when the node's own expressions change).
+ R7  the whole original text is only for VALID nodes: a conservative handler
+     returns ``o.source.string`` unchanged only under the guard that the status
+     *is* VALID.  A node marked INVALID_CHILDREN / INVALID_NODE has been changed
+     (children removed, reordered, replaced), so its stored text is stale by
+     definition, whatever the status of the remaining children.
 Not decided: verbatim equality of whole unmodified files (holds through the
 top-level source object); behaviour of the text surgery for INVALID_* nodes.
 """
@@ -268,8 +273,39 @@ def run(ctx):
                     ctx.judge('R6', inst, nontrivial=node_level, facts={'guards': guards})
     ctx.floor('R6', 'invalidate call sites', n6, 6)
 
+    # ---- R7
+    ctx.rule('R7', 'in FortranCodegenConservative, `return o.source.string` (the whole stored text) is control dependent on '
+                   '`o.source.status == SourceStatus.VALID`')
+    n7 = 0
+    for mname in sorted(k for k, v in C.members.items() if v.kind == 'func' and k.startswith('visit_')):
+        mem = C.function(mname)
+        par = X.param_name(mem)
+        whole = {f'{par}.source.string'} | set(X.names_assigned_from(mem.node, f'{par}.source.string'))
+        whole = {w for w in whole if w == f'{par}.source.string' or all(
+            ast.unparse(a.value) == f'{par}.source.string' for a in ast.walk(mem.node)
+            if isinstance(a, ast.Assign) and any(isinstance(t, ast.Name) and t.id == w for t in a.targets))}
+        for r, guards in X.nodes_with_guards(mem.node, lambda n: isinstance(n, ast.Return) and n.value is not None, early=True):
+            if ast.unparse(r.value) not in whole:
+                continue
+            n7 += 1
+            pos = [g for g in guards if not g.startswith('not (') and f'{par}.source.status == SourceStatus.VALID' in g
+                   and ' or ' not in g]
+            inst = f'{mem.name}:return-whole-source'
+            if pos:
+                ctx.judge('R7', inst, nontrivial=False)
+            else:
+                ctx.violation('R7', inst, f'{mem.module.relpath}:{r.lineno}',
+                              f'{mem.qualname} returns the stored text of the node under `{" and ".join(guards) or "no guard"}`, i.e. also for a '
+                              f'node whose source is no longer VALID: removed, reordered or duplicated children are not reflected in the output')
+    ctx.floor('R7', 'whole-text returns in conservative handlers', n7, 8)
+
 
 MUTANTS = [
+    Mutant('whole-text-for-invalid-children', CON,
+           "    def visit_Section(self, o, *args, **kwargs):\n        if o.source and o.source.status == SourceStatus.VALID:\n            return o.source.string\n",
+           "    def visit_Section(self, o, *args, **kwargs):\n        if o.source and o.source.status == SourceStatus.VALID:\n            return o.source.string\n"
+           "        if o.source and o.source.status == SourceStatus.INVALID_CHILDREN:\n            if o.body and all(n.source and n.source.status == SourceStatus.VALID for n in o.body):\n                return o.source.string\n",
+           expect=('R7', 'visit_Section:return-whole-source')),
     Mutant('drop-conservative-override', CON,
            "    def visit_Import(self, o, *args, **kwargs):\n        if o.source and o.source.status == SourceStatus.VALID:\n            return o.source.string\n        return super().visit_Import(o, *args, **kwargs)\n",
            "", expect=('R1', 'Import'), quick=True),
